@@ -291,6 +291,18 @@ def round_robin(quantum: int, rotation: int) -> Callable[[List[int], bool, int],
     return policy
 
 
+def starve(victim: int) -> Callable[[List[int], bool, int], int]:
+    """Deterministic schedule: thread `victim` runs only when no other thread is enabled (everything it waits for piles up)."""
+
+    def policy(enabled: List[int], running_enabled: bool, i: int) -> int:
+        for k, t in enumerate(enabled):
+            if t != victim:
+                return k
+        return 0
+
+    return policy
+
+
 # ---------------------------------------------------------------------------------------------
 # Stateless DFS with a preemption bound.
 
